@@ -20,11 +20,19 @@
     normal approximation given Erfc); otherwise the float p against the exact
     fraction a/b:  |p - a/b| <= 1e-12 * a/b + slack, with slack = 0 in general,
     4e-16 where the code forms 1 - CDF (cancellation loses relative accuracy by
-    construction), and 1e-13 when N = n1+n2 > 20, where the implementation's
-    binomials are exp(lgamma) and differences of large counts (PMF, upper tail)
-    are only absolutely accurate. *)
+    construction), and 1e-13 when N = n1+n2 > 20 AND there are ties, where the
+    implementation's binomials are exp(lgamma) and differences of large counts
+    (PMF, upper tail) are only absolutely accurate. Without ties the code runs a
+    recurrence of positive terms (relative accuracy in every entry, also for
+    n1, n2 = 50 where C(100,50) ~ 1e29): slack 0, and 4e-16 for 1 - CDF, for all
+    sizes, so that p-values in the far tails are judged as well.
+
+    Untied samples beyond the enumeration budget (N > 14; in particular both
+    sizes in 30..50): the specification's counts are evaluated in unbounded
+    integers by Model/UDistUntiedEval.v ([untied_le], [untied_table]), proved equal
+    to [count_le] / [count_eq] for all sizes (C11_untied_evaluator_le, _ge, _table_le, _table_eq). *)
 From Perf Require Import Base.Bytes Base.Sx Base.B64 Base.SxF.
-From Perf Require Import Model.UStat Model.UDistSpec Model.UDistImpl Model.UTest.
+From Perf Require Import Model.UStat Model.UDistSpec Model.UDistImpl Model.UTest Model.UDistUntiedEval.
 Local Open Scope Z_scope.
 
 (** ** decoding *)
@@ -124,26 +132,41 @@ Definition same_bits (x y : b64) : bool := b64_same x y.
 Definition vec_budget (t : list Z) : Z := fold_right (fun x acc => Z.min (acc * (x + 1)) (10 ^ 12)) 1 t.
 Definition model_budget : Z := 200000.
 Definition enum_budget : Z := 20000.
+(** untied samples with n1 * n2 above this (both sizes >= 30): the model's p-value IS the
+    table fill that evaluates the specification ([untied_le] is [cdf], proved equal to
+    [count_le]: C11_untied_evaluator_le), so it is computed once, in [prop_ok] *)
+Definition untied_heavy : Z := 899.
 
 (** ** the specification's ingredients, computed from the inputs only *)
 Definition all_equal (l : list Z) : bool :=
   match l with [] => true | v :: l' => forallb (Z.eqb v) l' end.
 
+(** no ties: the tie vector is all ones (= [ones (zsum t)]) *)
+Definition is_ones (t : list Z) : bool := forallb (Z.eqb 1) t.
+
 Definition spec_le (t : list Z) (n1 u : Z) : Z :=
-  if vec_budget t <=? enum_budget then count_le t n1 u else fast_count_le t n1 u.
+  if vec_budget t <=? enum_budget then count_le t n1 u
+  else if is_ones t then untied_le n1 (zsum t - n1) u
+  else fast_count_le t n1 u.
 Definition spec_ge (t : list Z) (n1 u : Z) : Z :=
-  if vec_budget t <=? enum_budget then count_ge t n1 u else fast_count_ge t n1 u.
+  if vec_budget t <=? enum_budget then count_ge t n1 u
+  else if is_ones t then untied_ge n1 (zsum t - n1) u
+  else fast_count_ge t n1 u.
 Definition spec_eq (t : list Z) (n1 u : Z) : Z :=
   if vec_budget t <=? enum_budget then count_eq t n1 u
+  else if is_ones t then untied_le n1 (zsum t - n1) u - untied_le n1 (zsum t - n1) (u - 1)
   else fast_count_le t n1 u - fast_count_le t n1 (u - 1).
+
+Definition slack_base_t (t : list Z) : Z := if is_ones t then 0 else slack_base (zsum t).
+Definition slack_compl_t (t : list Z) : Z := if is_ones t then 4 else slack_compl (zsum t).
 
 (** the property's p-value: (numerator, denominator, absolute slack in 1e-16) *)
 Definition spec_p (t : list Z) (n1 twoU : Z) (a : alt) : Z * Z * Z :=
   let tot := total t n1 in
   match a with
-  | Less => (spec_le t n1 twoU, tot, slack_base (zsum t))
-  | Greater => (spec_ge t n1 twoU, tot, slack_compl (zsum t))
-  | Differs => (Z.min tot (2 * Z.min (spec_le t n1 twoU) (spec_ge t n1 twoU)), tot, slack_base (zsum t))
+  | Less => (spec_le t n1 twoU, tot, slack_base_t t)
+  | Greater => (spec_ge t n1 twoU, tot, slack_compl_t t)
+  | Differs => (Z.min tot (2 * Z.min (spec_le t n1 twoU) (spec_ge t n1 twoU)), tot, slack_base_t t)
   end.
 
 Definition exact_regime (t : list Z) (n1 n2 : Z) : bool :=
@@ -204,7 +227,9 @@ Definition corr_ok_u (c : ucase) : bool :=
       | [], _ | _, [] => match u_out c with OErrSize => true | _ => false end
       | _, _ =>
           let s := ustat_of x1 x2 in
-          let heavy := use_exact s && us_hasTies s && (model_budget <? vec_budget (us_T s)) in
+          let heavy := use_exact s
+                       && (if us_hasTies s then model_budget <? vec_budget (us_T s)
+                           else untied_heavy <? us_n1 s * us_n2 s) in
           if heavy then
             (* the recursion of the model is not run on this input; statistic only *)
             match u_out c with
@@ -258,6 +283,7 @@ Definition corr_ok_d (c : dcase) : bool :=
   let bitexact := has_ties t && (d_n1 c + d_n2 c <=? 20) in
   (* the model's recursion is evaluated three times per query *)
   if has_ties t && (10 * model_budget <? vec_budget t * Z.of_nat (length (d_q c))) then true
+  else if negb (has_ties t) && (untied_heavy <? d_n1 c * d_n2 c) then true   (* see [untied_heavy] *)
   else
     forallb (fun '(q, oc, op) =>
                dres_matches (d_n1 c + d_n2 c) (cdf (d_n1 c) (d_n2 c) t q) bitexact oc
@@ -279,18 +305,21 @@ Definition prop_ok_d (c : dcase) : bool :=
       let tot := total t n1 in
       let step := if has_ties t then 2 else 4 in     (* support: half-integers with ties, integers without *)
       let small := vec_budget t <=? enum_budget in
-      let h := if small then [] else hist (Z.to_nat (2 * (n1 * n2) + 2)) t n1 in
-      let le u := if small then count_le t n1 u else hist_le h u in
-      let eq u := if small then count_eq t n1 u else hist_eq h u in
+      let untied := is_ones t in
+      (* one table per case: the fast evaluator's histogram with ties, the Mann-Whitney counts without *)
+      let h := if small then [] else if untied then untied_table n1 n2 else hist (Z.to_nat (2 * (n1 * n2) + 2)) t n1 in
+      let le u := if small then count_le t n1 u else if untied then tab_le h u else hist_le h u in
+      let eq u := if small then count_eq t n1 u else if untied then tab_eq h u else hist_eq h u in
+      let slack := slack_base_t t in
       forallb (fun '(q, oc, op) =>
                  match oc, op with
                  | FNum xc, FNum xp =>
                      in_unit xc && in_unit xp &&
                      (if q <? 0 then close xc 0 1 0
                       else if 4 * (n1 * n2) <=? q then close xc 1 1 0
-                      else close xc (le (q / 2)) tot (slack_base (n1 + n2)))
+                      else close xc (le (q / 2)) tot slack)
                      && (if q mod step =? 0 then
-                           (if q <? 0 then close xp 0 1 0 else close xp (eq (q / 2)) tot (slack_base (n1 + n2)))
+                           (if q <? 0 then close xp 0 1 0 else close xp (eq (q / 2)) tot slack)
                          else true)
                  | _, _ => false
                  end)
